@@ -89,11 +89,45 @@ earlier in the set order has a matching synonym or wildcard pattern. -/
 theorem lookup_by_synonym {before after : Table} {d : OptDecl} {key syn : Bytes}
     (hn : ∀ e ∈ before ++ d :: after, ciEq e.name key = false)
     (hb : ∀ e ∈ before, e.syns.any (fun s => ciEq key s) = false ∧ wcMatch e.headTails key = none)
-    (hs : syn ∈ d.syns) (hk : ciEq key syn = true) :
+    (hs : syn ∈ d.syns) (hk : ciEq key syn = true) (hw : d.isWildcard = false) :
     lookup (before ++ d :: after) key = some (d, none) := by
   have : d.syns.any (fun s => ciEq key s) = true := by
     simp only [List.any_eq_true]; exact ⟨syn, hs, hk⟩
-  simp [lookup, find_name_none hn, findLoop_skip hb, findLoop, this]
+  simp [lookup, find_name_none hn, findLoop_skip hb, findLoop, this, hw]
+
+/-- the literal text of a synonym (pattern) of a WILDCARD option is not a key (ampl/mp 084cb26) -/
+theorem lookup_synonym_of_wildcard {before after : Table} {d : OptDecl} {key syn : Bytes}
+    (hn : ∀ e ∈ before ++ d :: after, ciEq e.name key = false)
+    (hb : ∀ e ∈ before, e.syns.any (fun s => ciEq key s) = false ∧ wcMatch e.headTails key = none)
+    (hs : syn ∈ d.syns) (hk : ciEq key syn = true) (hw : d.isWildcard = true) :
+    lookup (before ++ d :: after) key = none := by
+  have : d.syns.any (fun s => ciEq key s) = true := by
+    simp only [List.any_eq_true]; exact ⟨syn, hs, hk⟩
+  simp [lookup, find_name_none hn, findLoop_skip hb, findLoop, this, hw]
+
+/-- a key found without a wildcard body never denotes a wildcard option -/
+theorem findLoop_none_body {key : Bytes} {t : Table} {d : OptDecl} (h : findLoop key t = some (d, none)) :
+    d.isWildcard = false := by
+  induction t with
+  | nil => simp [findLoop] at h
+  | cons e es ih =>
+    simp only [findLoop] at h
+    split at h
+    · split at h
+      · cases h
+      · rename_i hw; simp at h; rw [← h]; simpa using hw
+    · split at h
+      · simp at h
+      · exact ih h
+
+theorem lookup_none_body {t : Table} {key : Bytes} {d : OptDecl} (h : lookup t key = some (d, none)) :
+    d.isWildcard = false := by
+  unfold lookup at h
+  split at h
+  · split at h
+    · cases h
+    · rename_i hw; simp at h; rw [← h]; simpa using hw
+  · exact findLoop_none_body h
 
 /-! wildcard pattern `head*tail` against the key `head body tail` -/
 
